@@ -28,6 +28,9 @@ def run(ctx):
     r94(ctx, wr)
     ar.fresh_part_rule(ctx, 'R9.5')
     r96(ctx, api)
+    r97(ctx, wr)
+    from . import callsigs as _cs
+    _cs.general_rules(ctx, 'R9', ['writer.write', 'writer.overwrite', 'writer.merge', 'writer.write_multi', 'writer.partition_on_columns', 'api.ParquetFile.write_row_groups', 'api.ParquetFile.remove_row_groups', 'api.ParquetFile._sort_part_names', 'api.ParquetFile._write_common_metadata', 'writer.write_common_metadata', 'writer.consolidate_categories'])
 
 
 def _late_effects(cfg, start_node, m):
@@ -209,3 +212,21 @@ def r96(ctx, api):
            'the plan used by _sort_part_names is keyed by `%s` (the bare part number): files with the same number in '
            'different partition directories collapse into one entry, so a file can be renamed onto a live file the '
            'plan does not know about' % keytxt, api.loc(pi))
+
+
+def r97(ctx, wr):
+    f = wr.func('overwrite')
+    d = [s for s in iter_child_stmts(f.body) if isinstance(s, ast.Assign) and norm(s.targets[0]) == 'partition_values_in_new']
+    ok = len(d) == 1
+    t = norm(d[0].value) if d else ''
+    ok = ok and 'data.loc[:, defined_partitions]' in t and ".astype(str).agg('/'.join, axis=1)" in t
+    ctx.ob('R9.7', 'writer.overwrite:new-partition-keys-built-in-partition-column-order', ok,
+           'the key of the new data must list the values in the order of the dataset\'s partition columns (the order of the '
+           'directory levels it is compared with): %s' % t[:120], wr.loc(d[0]) if d else wr.loc(f))
+    dp = [s for s in iter_child_stmts(f.body) if isinstance(s, ast.Assign) and norm(s.targets[0]) == 'defined_partitions']
+    ctx.ob('R9.7', 'writer.overwrite:partition-order-taken-from-the-existing-dataset',
+           len(dp) == 1 and norm(dp[0].value) == 'list(pf.cats)', norm(dp[0]) if dp else '', wr.loc(f))
+    rm = [s for s in iter_child_stmts(f.body) if isinstance(s, ast.Assign) and norm(s.targets[0]) == 'rgs_to_remove']
+    ctx.ob('R9.7', 'writer.overwrite:row-groups-to-remove-matched-by-partition-values',
+           len(rm) == 1 and 'partitions(rg, True) in partition_values_in_new' in norm(rm[0].value) and 'pf.row_groups' in norm(rm[0].value),
+           norm(rm[0])[:120] if rm else '', wr.loc(f))
